@@ -30,8 +30,19 @@ RULE = ('(1) exhaustive handler grid: handler lists of length <=3 over {E1,E2,E3
         'template rendered with 6 different classes, and the same inside a loop whose rows carry the class; '
         '(6) loop grid: per-row data decide whether/what each iteration raises or returns inside a try per '
         'iteration, all 64 row sequences of length 3 per template; (7) seeded random trees reading '
-        'per-activation data, 3 environments each.  distinct = distinct (template source, sub-template '
-        'sources, environment); '
+        'per-activation data, 3 environments each.  '
+        'Block kinds of (3),(4),(7) include every dtml-with spelling (object, mapping, and the four "only" '
+        'spellings that render the block in a NEW namespace; the harness hands those the whole top-level '
+        'namespace so that probes stay reachable) and sub-templates called with a plain mapping (own '
+        'namespace); "inside dtml-with only" and "inside a handler, inside dtml-with only" are also outer '
+        'contexts of (1),(2) and a third form of (5).  Handlers, else, finally and body blocks of every '
+        'grid hold a tag group in which the TEMPLATE reads error_type / error_value / error_tb (dtml-var, '
+        'expression, dtml-if, _[...]), guarded by dtml-if so that it renders [-] where nothing is bound.  '
+        'Every 4th case of every part is compiled and compared once more with a template class carrying '
+        'the DocumentTemplate.security.RestrictedDTML mix-in (AccessControl guards on the namespace; default '
+        'policy, anonymous user; harness objects declare themselves public), every other of those with plain '
+        'sub-templates.  distinct = distinct (template source, sub-template '
+        'sources, environment, template class); '
         'non-trivial = the model executes at least one raise or return, or renders an else/finally block')
 ASSUMPTIONS = ['a dtml-raise name that is neither a builtin nor a zExceptions class raises *some* Exception '
                'subclass (the statement does not fix which); only bare/custom-named handlers surround it',
@@ -39,14 +50,23 @@ ASSUMPTIONS = ['a dtml-raise name that is neither a builtin nor a zExceptions cl
                'replaced by the raise tag\'s own exception: the statement is silent, both are accepted',
                '"message" of an exception = its single str argument (args == (msg,)) or str(exc)',
                'error_value is the caught exception instance (Try docstring: "the caught exception\'s value"), '
-               'error_type its class name; error_tb is only counted, never demanded',
+               'error_type its class name; error_tb (Try docstring: available inside the except blocks) must '
+               'be readable and true where the template reads it inside a handler; nothing is demanded of it '
+               'outside a handler and probes only count it',
+               'dtml-var of error_value must give the message only for classes whose str(exception) is the '
+               'message; for the others (KeyError ...) and for unknown raise names that text is not judged',
+               'dtml-with ... only: the block sees the given object and nothing else (DT_With / dtml docs), so '
+               'error_type / error_value of an enclosing handler and rows of an enclosing loop are not visible '
+               'in it; the same holds in a sub-template called with a plain mapping',
+               'a security-restricted template class with objects that all declare themselves public must '
+               'behave exactly like the plain class (guards decide about access, not about control flow)',
                'a sub-template inserted with <dtml-var sub> contributes str(value) of its call result']
 SHARD_TIMEOUT = {'quick': 900, 'thorough': 3400}
 NSHARDS = {'quick': 16, 'thorough': 32}
 
 MECH_RET_IN_RAISE = 'return-inside-raise-body-swallowed'
 
-BLOCK_KINDS = ['in', 'with', 'let', 'if', 'unless', 'try body', 'except', 'else', 'finally',
+BLOCK_KINDS = ['in', 'with', 'with only', 'let', 'if', 'unless', 'try body', 'except', 'else', 'finally',
                'raise body', 'sub-template']
 TRY_SEMANTICS = ['try: handler chosen by exact name', 'try: handler chosen by base-class name',
                  'try: handler chosen bare', 'try: no handler matches, propagates',
@@ -63,7 +83,44 @@ def plan(tier, seed):
 
 # ---------------------------------------------------------------- engine side
 class W:
+    # harness objects declare themselves public: under a security-restricted template class the
+    # standard AccessControl policy then lets the namespace lookups of this workload through
+    __allow_access_to_unprotected_subobjects__ = 1
     wattr = 'w'
+
+
+class Holder:
+    """An object whose attributes are the entries of a namespace dict (dtml-with <object> only)."""
+    __allow_access_to_unprotected_subobjects__ = 1
+
+    def __init__(self, d):
+        self.__dict__['_d'] = d
+
+    def __getattr__(self, k):
+        try:
+            return self.__dict__['_d'][k]
+        except KeyError:
+            raise AttributeError(k)
+
+
+KLASSES = ['plain', 'restricted', 'mixed']
+_classes = {}
+
+
+def template_classes(klass):
+    """(class of the called template, class of its sub-templates).  'restricted': HTML with the
+    DocumentTemplate.security.RestrictedDTML mix-in (the namespace carries the AccessControl
+    guards, as for through-the-web DTML in Zope; the process keeps the default security policy
+    and an anonymous user); 'mixed': restricted caller, plain sub-templates."""
+    if not _classes:
+        from DocumentTemplate.DT_HTML import HTML
+        from DocumentTemplate.security import RestrictedDTML
+
+        class RestrictedHTML(RestrictedDTML, HTML):
+            pass
+        _classes.update({'plain': (HTML, HTML), 'restricted': (RestrictedHTML, RestrictedHTML),
+                         'mixed': (RestrictedHTML, HTML)})
+    return _classes[klass]
 
 
 def msg_of(e):
@@ -82,9 +139,16 @@ class Compiled:
         self.herr = []
         self.booms = {}
         self.subs = {}
+        self.ns = {}
+        self.klass = case.get('klass', 'plain')
+        if self.klass != 'plain' or HTML is None:
+            HTML, SUB = template_classes(self.klass)
+        else:
+            SUB = HTML
         style = self.style = case.get('style', 'name')
         self.base = {'probe': self.probe, 'boom': self.boom, 'vboom': self.vboom, 'callsub': self.callsub,
-                     'cls': U.resolve, 'wobj': W(), 't_true': 1, 't_false': 0,
+                     'callfresh': self.callfresh, 'elog': self.elog,
+                     'cls': U.resolve, 'wobj': W(), 'wmap': {'wm': 1}, 't_true': 1, 't_false': 0,
                      'seq0': [], 'seq1': [1], 'seq2': [1, 2], 'seq3': [1, 2, 3]}
         ns = self.base
         ns.update(U.CUSTOM)
@@ -100,23 +164,42 @@ class Compiled:
                     ns['X_' + n[1]] = Named(self.vboom, n[1], n[2])
                 elif n[0] == 'sub' and n[2] == 'call':
                     ns['C_' + n[1]] = Named(self.callsub, n[1])
+                elif n[0] == 'sub' and n[2] == 'fresh':
+                    ns['F_' + n[1]] = Named(self.callfresh, n[1])
         for key, nodes in case.get('subs', {}).items():
-            self.subs[key] = ns['sub_' + key] = HTML(U.to_src(nodes, style))
+            self.subs[key] = ns['sub_' + key] = SUB(U.to_src(nodes, style))
         self.src = U.to_src(case['tree'], style)
         self.subsrc = sorted((k, U.to_src(v, style)) for k, v in case.get('subs', {}).items())
         self.tmpl = HTML(self.src)
 
     # -- probes (namespace callables / objects)
     def bound(self, md):
-        present = [k for k in ('error_type', 'error_value', 'error_tb') if md.has_key(k)]
-        if not present:
-            return None
-        if 'error_type' not in present or 'error_value' not in present:
-            return ['partial'] + present
-        ev = md.getitem('error_value', 0)
-        return [md.getitem('error_type', 0), type(ev).__name__,
+        try:
+            present = [k for k in ('error_type', 'error_value', 'error_tb') if md.has_key(k)]
+            if not present:
+                return None
+            if 'error_type' not in present or 'error_value' not in present:
+                return ['partial'] + present
+            ev = md.getitem('error_value', 0)
+            et = md.getitem('error_type', 0)
+        except Exception as e:
+            # the namespace refuses to say whether / what is bound (e.g. a guard denies the
+            # lookup): that is an observation about the engine, not a harness fault
+            return ['unreadable', type(e).__name__]
+        return [et, type(ev).__name__,
                 msg_of(ev) if isinstance(ev, BaseException) else repr(ev),
                 'error_tb' in present]
+
+    def elog(self, i, et, ev, tb):
+        """Called from a template expression with the three handler variables as the template
+        itself read them."""
+        try:
+            self.log.append(['e', i, [et, type(ev).__name__,
+                                      msg_of(ev) if isinstance(ev, BaseException) else repr(ev),
+                                      bool(tb)], None])
+        except Exception as e:
+            self.herr.append('elog %s: %r' % (i, e))
+        return '[e]'
 
     def probe(self, i, md):
         try:
@@ -159,14 +242,29 @@ class Compiled:
         self.log.append(['sub<', key, ['val', U.enc(r)]])
         return r if isinstance(r, str) else '<%s>' % type(r).__name__
 
+    def callfresh(self, key, md):
+        """Sub-template called with a plain mapping (the top-level namespace of this render), not
+        with the caller's namespace object: the callee builds a namespace of its own."""
+        self.log.append(['sub>', key])
+        try:
+            r = self.subs[key](None, self.ns)
+        except Exception as e:
+            self.log.append(['sub<', key, ['exc', type(e).__name__, msg_of(e)]])
+            raise
+        self.log.append(['sub<', key, ['val', U.enc(r)]])
+        return r if isinstance(r, str) else '<%s>' % type(r).__name__
+
     # -- one render
     def render(self, env):
         self.log = []
         self.herr = []
         self.booms = {}
-        ns = dict(self.base)
+        ns = self.ns = dict(self.base)
         if env:
             ns.update(conv_env(env))
+        # the whole top-level namespace again as one mapping / one object (dtml-with ... only)
+        ns['ns_map'] = ns
+        ns['ns_obj'] = Holder(ns)
         exc = None
         try:
             r = self.tmpl(None, ns)
@@ -211,12 +309,12 @@ def conv_env(env):
 def same_bound(exp, got):
     if exp is None or got is None:
         return exp is None and got is None
-    if got[0] == 'partial':
+    if got[0] in ('partial', 'unreadable'):
         return False
     cls, msg = exp
     if cls == '?':
-        return got[0] == got[1] and got[0] not in U.CUSTOM and got[2] == msg
-    return got[0] == cls and got[1] == cls and got[2] == msg
+        return got[0] == got[1] and got[0] not in U.CUSTOM and U.text_eq(msg, got[2])
+    return got[0] == cls and got[1] == cls and U.text_eq(msg, got[2])
 
 
 def same_outcome(exp, got, exc):
@@ -224,10 +322,10 @@ def same_outcome(exp, got, exc):
     if exp[0] != got[0]:
         return False
     if exp[0] == 'val':
-        return exp[1] == got[1]
+        return U.enc_eq(exp[1], got[1])
     if exp[1] == '?':
-        return got[1] not in U.CUSTOM and exp[2] == got[2]
-    if exp[1:] != got[1:]:
+        return got[1] not in U.CUSTOM and U.text_eq(exp[2], got[2])
+    if exp[1] != got[1] or not U.text_eq(exp[2], got[2]):
         return False
     want = U.resolve(exp[1])
     return exc is None or want is None or type(exc) is want
@@ -241,10 +339,10 @@ def diff(model_out, model_trace, outcome, log, exc):
     # per-probe render counts first: "rendered exactly once" is a count
     cnt_e, cnt_m = {}, {}
     for ev in log:
-        if ev[0] in ('p', 'b'):
+        if ev[0] in ('p', 'b', 'e'):
             cnt_e[ev[1]] = cnt_e.get(ev[1], 0) + 1
     for ev in model_trace:
-        if ev[0] in ('p', 'b'):
+        if ev[0] in ('p', 'b', 'e'):
             cnt_m[ev[1]] = cnt_m.get(ev[1], 0) + 1
     for i in sorted(set(cnt_e) | set(cnt_m)):
         if cnt_e.get(i, 0) != cnt_m.get(i, 0):
@@ -258,6 +356,12 @@ def diff(model_out, model_trace, outcome, log, exc):
         if ok and g[0] in ('p', 'b'):
             if not same_bound(m[2], g[2]):
                 probs.append('at probe %s error_type/error_value visible as %r, model %r' % (g[1], g[2], m[2]))
+                break
+        elif ok and g[0] == 'e':
+            # what the template's own expression read; error_tb must be there too (Try docstring)
+            if not same_bound(m[2], g[2]) or not g[2][3]:
+                probs.append('expression in the handler read error_type/error_value/error_tb as %r, model %r'
+                             % (g[2], m[2]))
                 break
         elif ok and g[0] == 'sub<':
             if not same_outcome(m[2], g[2], None):
@@ -304,12 +408,21 @@ def check_render(ctx, comp, case, env, ri, varied, tally):
     if tally:
         nontrivial = bool(sum(v for k, v in st.items()
                               if k.startswith(('raise ', 'return value', 'finally:', 'try: else'))))
-        ctx.case((comp.src, comp.subsrc, json.dumps(env, sort_keys=True) if env else None), nontrivial)
+        desc = (comp.src, comp.subsrc, json.dumps(env, sort_keys=True) if env else None)
+        if comp.klass != 'plain':
+            desc += (comp.klass,)
+        ctx.case(desc, nontrivial)
     if herr:
         ctx.inconclusive('harness fault inside a probe: %s' % herr[0])
         return True
     ctx.count('monitor:outcome comparisons')
     ctx.count('monitor:probe events compared', len(log))
+    guarded = comp.klass != 'plain'
+    if guarded:
+        ctx.count('monitor:outcome comparisons under a security-restricted template class')
+    ne = sum(1 for ev in log if ev[0] == 'e')
+    if ne:
+        ctx.count('monitor:handler variables read by a template expression, compared', ne)
     if ri:
         ctx.count('monitor:comparisons on a 2nd..nth render of one compiled template')
     if tally:
@@ -320,11 +433,19 @@ def check_render(ctx, comp, case, env, ri, varied, tally):
                 ctx.table(what + ' executed inside', k, v)
         ctx.table('outcome kinds', m_out[0] if m_out[0] == 'exc' else m_out[1].split(':')[0])
         for ev in log:
-            if ev[0] in ('p', 'b') and ev[2] and ev[2][0] != 'partial':
+            if ev[0] in ('p', 'b') and ev[2] and ev[2][0] not in ('partial', 'unreadable'):
                 ctx.count('monitor:probes seeing error_type bound')
+                if guarded:
+                    ctx.count('monitor:probes seeing error_type bound under guards')
                 if ev[2][3]:
                     ctx.count('monitor:probes seeing error_tb bound')
                 break
+        for k, v in st.items():
+            if guarded and k.startswith('einfo: handler variables read by form'):
+                ctx.table('semantics under guards', k, v)
+            if guarded and k in ('call ended by return', 'with spelling only', 'with spelling maponly',
+                                 'with spelling expronly', 'with spelling exprmaponly'):
+                ctx.table('semantics under guards', k, v)
         if m_out[0] == 'exc' and m_out[1] == '?' and outcome[0] == 'exc' and outcome[1] not in U.CUSTOM:
             ctx.table('class raised for an unknown name', outcome[1])
     best = None
@@ -356,6 +477,7 @@ def check_render(ctx, comp, case, env, ri, varied, tally):
         what = 'render #%d of the same compiled template: %s' % (ri + 1, what)
     ctx.violation(what, rcase, mech=mech, key=case_key(rcase),
                   detail={'source': comp.src, 'subs': dict(comp.subsrc), 'environment': env,
+                          'template_class': comp.klass,
                           'render_index': ri, 'engine_outcome': outcome,
                           'model_outcome': m_out, 'engine_events': log[:60], 'model_events': m_trace[:60]})
     return False
@@ -441,8 +563,16 @@ def run(ctx, spec):
         nstyle[0] += 1
         case['style'] = 'expr' if nstyle[0] % 6 == 0 else 'name'
         ctx.count('probe style:' + case['style'])
+        ctx.count('template class:plain')
         try:
             ok, comp = check_case(ctx, HTML, case)
+            if ok and nstyle[0] % 4 == 1:
+                # every 4th case once more, compiled by a security-restricted template class (every
+                # other time with plain sub-templates): the guards must not change anything
+                rcase = dict(case)
+                rcase['klass'] = 'mixed' if case.get('subs') and (nstyle[0] // 4) % 2 else 'restricted'
+                ctx.count('template class:' + rcase['klass'])
+                check_case(ctx, HTML, rcase)
         except Exception:
             # a fault of the harness / model on one case must not stop the workload
             import traceback
@@ -481,12 +611,12 @@ def run(ctx, spec):
     # (3) placement grid
     acts = U.placement_actions()
     i = 0
-    for kind in U.KINDS:
+    for kind in U.KINDS_ONE:
         for act in acts:
             for cx in U.PCONTEXTS:
                 i += 1
                 if i % nsh == shard and U.placement_allowed([kind], act, cx):
-                    do(U.build_placement([kind], act, cx))
+                    do(U.build_placement([kind], act, cx, i))
     i = 0
     stride = 16 if quick else 1
     for k1 in U.KINDS:
@@ -498,7 +628,7 @@ def run(ctx, spec):
                         continue
                     if U.placement_allowed([k1, k2], act, cx):
                         ctx.count('placement: two kinds deep')
-                        do(U.build_placement([k1, k2], act, cx))
+                        do(U.build_placement([k1, k2], act, cx, i))
     # (4) seeded random trees
     nrand = (6000 if quick else 70000) // nsh
     gen = U.RandomTrees(ctx.rng, 3 if quick else 4, 2 if quick else 3)
@@ -548,10 +678,34 @@ def finish(agg):
               'varied:cases where one data fault tag object gave different results',
               'varied:cases where one try tag object gave different results',
               'varied:computed raise differs between 1st and 2nd activation',
-              'varied:try differs between 1st and 2nd activation'):
+              'varied:try differs between 1st and 2nd activation',
+              'template class:restricted', 'template class:mixed',
+              'monitor:outcome comparisons under a security-restricted template class',
+              'monitor:probes seeing error_type bound under guards',
+              'monitor:handler variables read by a template expression, compared'):
         if not c.get(k):
             inc.append('deciding counter is zero: ' + k)
     sem = t.get('semantics', {})
+    semg = t.get('semantics under guards', {})
+    for form in U.EFORMS:
+        k = 'einfo: handler variables read by form ' + form
+        if not sem.get(k):
+            inc.append('handler variables never read by the template itself, form ' + form)
+        if not semg.get(k):
+            inc.append('handler variables never read by a restricted template, form ' + form)
+        if not sem.get('einfo: error_type not bound here (form %s)' % form):
+            inc.append('template never looked for the handler variables outside a handler, form ' + form)
+    for v in ['obj', 'map'] + U.WITH_ONLY:
+        if not sem.get('with spelling ' + v):
+            inc.append('dtml-with spelling never rendered: ' + v)
+    for v in U.WITH_ONLY:
+        if not semg.get('with spelling ' + v):
+            inc.append('dtml-with spelling never rendered by a restricted template: ' + v)
+    if not semg.get('call ended by return'):
+        inc.append('no call of a restricted template ended by a return')
+    for r in ('var', 'call', 'fresh'):
+        if not sem.get('sub-template call route ' + r):
+            inc.append('sub-template call route never exercised: ' + r)
     for k in TRY_SEMANTICS + FIN_SEMANTICS:
         if not sem.get(k):
             inc.append('semantic situation never exercised: ' + k)
@@ -576,7 +730,9 @@ def finish(agg):
                                         'exhaustive in both tiers; the two-deep placement grid is exhaustive '
                                         'in thorough and a 1/16 stride in quick; the rerender and loop grids '
                                         '(one compiled template, many environments / rows) are exhaustive '
-                                        'in both tiers; random trees are seeded extras'}}
+                                        'in both tiers; random trees are seeded extras; every 4th case of every '
+                                        'part is compiled and compared a second time with a security-restricted '
+                                        'template class'}}
 
 
 def replay(ctx, rep):
